@@ -928,3 +928,156 @@ Proof.
     injection H as <- <-. split; [reflexivity|].
     rewrite <- (Hdec []). f_equal. rewrite <- Hshape. rewrite <- !app_assoc. rewrite ?app_nil_r. reflexivity.
 Qed.
+
+(* --- the hypothesis `wire (host_labels hostname) < 256` holds for every host name of at most 254 octets --- *)
+Lemma wire_cut63_le toks : wire (cut63 toks) <= wire toks.
+Proof.
+  induction toks as [|t r IH]; [cbn; lia|]. cbn [cut63 map wire]. fold (cut63 r).
+  rewrite lenN_takeN. lia.
+Qed.
+
+Lemma wire_tokens_from_le : forall s cur, wire (tokens_from cur s) <= lenN cur + lenN s + 1.
+Proof.
+  induction s as [|c r IH]; intros cur; cbn [tokens_from lenN].
+  - destruct cur; cbn [wire lenN]; lia.
+  - destruct (c =? 46).
+    + destruct cur as [|x cur'].
+      * specialize (IH []). cbn [lenN] in *. lia.
+      * specialize (IH []). cbn [wire lenN] in *. lia.
+    + specialize (IH (cur ++ [c])). rewrite lenN_app in IH. cbn [lenN] in IH. lia.
+Qed.
+
+Lemma host_labels_wire hostname : wire (host_labels hostname) <= lenN (cstr hostname) + 1.
+Proof.
+  unfold host_labels, tokens. pose proof (wire_cut63_le (tokens_from [] (cstr hostname))).
+  pose proof (wire_tokens_from_le (cstr hostname) []). cbn [lenN] in *. lia.
+Qed.
+
+Theorem build_query_roundtrip_len : forall sz hostname qid qtype edns msg q,
+  build_query sz hostname qid qtype edns = Ok (msg, q) ->
+  qid < 65536 -> lenN (cstr hostname) <= 254 ->
+  message_unpack msg =
+    Ok (UAnswers (query_header qid edns) (mkQ (join_dots (host_labels hostname)) (qtype mod 65536) dns_CLASS_IN) []).
+Proof.
+  intros sz hostname qid qtype edns msg q H Hqid Hlen.
+  apply (build_query_roundtrip sz hostname qid qtype edns msg q H Hqid).
+  pose proof (host_labels_wire hostname). lia.
+Qed.
+
+(* --- well-formed host names: the decoded name is the name itself, and rfc1035QueryCompare says "same query" --- *)
+Definition nodot (l : bytes) : bool := forallb (fun c => negb (c =? 46)) l.
+
+Definition hostname_wf (labels : list bytes) : Prop :=
+  labels <> [] /\ Forall (fun l => 1 <= lenN l /\ lenN l <= 63 /\ nodot l = true /\ forallb nz l = true) labels.
+
+Lemma tokens_from_label : forall l cur s, nodot l = true -> tokens_from cur (l ++ s) = tokens_from (cur ++ l) s.
+Proof.
+  induction l as [|c l IH]; intros cur s H; cbn [app].
+  - rewrite app_nil_r. reflexivity.
+  - cbn [nodot forallb] in H. apply andb_prop in H as [Hc Hl].
+    cbn [tokens_from]. destruct (c =? 46) eqn:E; [discriminate|].
+    rewrite (IH (cur ++ [c]) s Hl). rewrite <- app_assoc. reflexivity.
+Qed.
+
+Lemma tokens_join_dots : forall labels, hostname_wf labels -> tokens (join_dots labels) = labels.
+Proof.
+  intros labels [Hne Hall]. unfold tokens.
+  induction Hall as [|l r (H1 & H2 & H3 & H4) Hr IH]; [contradiction|].
+  destruct r as [|l2 r].
+  - cbn [join_dots]. rewrite <- (app_nil_r l) at 1. rewrite (tokens_from_label l [] [] H3).
+    cbn [app tokens_from]. destruct l; [cbn [lenN] in H1; lia|reflexivity].
+  - change (join_dots (l :: l2 :: r)) with (l ++ 46 :: join_dots (l2 :: r)).
+    rewrite (tokens_from_label l [] _ H3). cbn [app tokens_from N.eqb Pos.eqb].
+    destruct l as [|x l']; [cbn [lenN] in H1; lia|].
+    rewrite IH by discriminate. reflexivity.
+Qed.
+
+Lemma cut63_id labels : Forall (fun l => lenN l <= 63) labels -> cut63 labels = labels.
+Proof.
+  induction 1 as [|l r Hl Hr IH]; [reflexivity|]. cbn [cut63 map]. fold (cut63 r).
+  rewrite IH. rewrite takeN_all by (unfold dns_MAXLABELSZ; lia). reflexivity.
+Qed.
+
+Lemma host_labels_wf labels : hostname_wf labels -> host_labels (join_dots labels) = labels.
+Proof.
+  intros H. pose proof H as [Hne Hall]. unfold host_labels.
+  rewrite cstr_id.
+  - rewrite (tokens_join_dots labels H). apply cut63_id.
+    eapply Forall_impl; [|exact Hall]. intros l (H1 & H2 & _). exact H2.
+  - apply join_dots_nz. eapply Forall_impl; [|exact Hall]. intros l (_ & _ & _ & H4). exact H4.
+Qed.
+
+Lemma list_eqb_refl l : list_eqb l l = true.
+Proof. induction l as [|x l IH]; [reflexivity|]. cbn [list_eqb]. rewrite N.eqb_refl, IH. reflexivity. Qed.
+
+Lemma query_compare_refl q : query_compare q q = true.
+Proof.
+  unfold query_compare. rewrite !N.eqb_refl. cbn [negb]. cbv zeta. rewrite ?N.eqb_refl. cbn [negb].
+  apply list_eqb_refl.
+Qed.
+
+Lemma lenN_join_dots_le labels : lenN (join_dots labels) <= wire labels.
+Proof.
+  induction labels as [|l r IH]; [cbn; lia|].
+  destruct r as [|l2 r]; [cbn [join_dots wire]; lia|].
+  change (join_dots (l :: l2 :: r)) with (l ++ [46] ++ join_dots (l2 :: r)).
+  rewrite !lenN_app. cbn [wire lenN] in *. lia.
+Qed.
+
+Theorem build_query_wellformed_roundtrip : forall sz labels qid qtype edns msg q,
+  hostname_wf labels -> wire labels < 256 -> qid < 65536 ->
+  build_query sz (join_dots labels) qid qtype edns = Ok (msg, q) ->
+  q = mkQ (join_dots labels) (qtype mod 65536) dns_CLASS_IN /\
+  message_unpack msg = Ok (UAnswers (query_header qid edns) q []) /\
+  query_compare q q = true.
+Proof.
+  intros sz labels qid qtype edns msg q Hwf Hw Hqid H.
+  pose proof (host_labels_wf labels Hwf) as Hl.
+  destruct (build_query_roundtrip sz (join_dots labels) qid qtype edns msg q H Hqid) as [Hq Hm].
+  { rewrite Hl. exact Hw. }
+  assert (Hc : cstr (join_dots labels) = join_dots labels).
+  { destruct Hwf as [_ Hall]. apply cstr_id. apply join_dots_nz.
+    eapply Forall_impl; [|exact Hall]. intros l (_ & _ & _ & H4). exact H4. }
+  assert (Hq' : q = mkQ (join_dots labels) (qtype mod 65536) dns_CLASS_IN).
+  { rewrite Hq, Hc. rewrite takeN_all; [reflexivity|].
+    pose proof (lenN_join_dots_le labels). unfold dns_sizeof_query_name. lia. }
+  split; [exact Hq'|]. split; [|apply query_compare_refl].
+  rewrite Hm, Hl, Hq'. reflexivity.
+Qed.
+
+(* builders do succeed when the buffer is large enough (so the round-trip theorems are not vacuous) *)
+Lemma labels_pack_fits : forall toks sz off out,
+  off + wire (cut63 toks) <= sz ->
+  labels_pack sz off toks out = Ok (out ++ enc_labels (cut63 toks), off + wire (cut63 toks)).
+Proof.
+  induction toks as [|t r IH]; intros sz off out H; cbn [labels_pack cut63 map enc_labels wire].
+  - rewrite app_nil_r, N.add_0_r. reflexivity.
+  - fold (cut63 r). cbn [cut63 map wire] in H. fold (cut63 r) in H.
+    assert (Hlen : lenN (takeN dns_MAXLABELSZ t) = N.min (lenN t) dns_MAXLABELSZ).
+    { rewrite lenN_takeN. apply N.min_comm. }
+    destruct (sz <? off) eqn:E1; [lia|].
+    unfold label_pack.
+    destruct (sz - off <? N.min (lenN t) dns_MAXLABELSZ + 1) eqn:E2; [lia|].
+    rewrite takeN_min.
+    rewrite IH by (cbn [lenN]; lia).
+    f_equal. f_equal.
+    + rewrite <- app_assoc. rewrite Hlen. reflexivity.
+    + cbn [lenN]. lia.
+Qed.
+
+Theorem build_query_succeeds : forall sz hostname qid qtype,
+  12 + wire (host_labels hostname) + 5 <= sz ->
+  exists msg q, build_query sz hostname qid qtype 0 = Ok (msg, q).
+Proof.
+  intros sz hostname qid qtype Hsz.
+  unfold build_query. unfold header_pack. destruct (sz <? 12) eqn:E0; [lia|].
+  unfold question_pack, name_pack. rewrite cstr_cstr. fold (host_labels hostname).
+  unfold host_labels in *.
+  rewrite (labels_pack_fits (tokens (cstr hostname)) (sz - 12) 0 []) by lia.
+  destruct (sz - 12 <=? 0 + wire (cut63 (tokens (cstr hostname)))) eqn:E1; [lia|].
+  destruct (sz - 12 <? 0 + wire (cut63 (tokens (cstr hostname))) + 1 + 4) eqn:E2; [lia|].
+  change (0 <? 0) with false. cbv iota.
+  match goal with |- context [if ?c then _ else _] => destruct c eqn:E3 end.
+  - exfalso. rewrite !lenN_app, !lenN_be16, lenN_enc_labels in E3. cbn [lenN app] in E3. lia.
+  - eexists. eexists. reflexivity.
+Qed.
